@@ -16,7 +16,9 @@ pub fn build_race_world() -> MResult<()> {
         .dir("e").file("e/f")
         .link("abs", "/a/b").link("up", "..").file("file")
         .link("evil-rel", "../../../../../../secret").link("evil-abs", "/../../../secret").link("evil-dir", "../../sibling")
-        .link("wl", ".");
+        .link("wl", ".")
+        // a /tmp-like directory (sticky, world-writable, owned by root) for callers with different uids
+        .add("tmp", crate::tree::Kind::DirMode(0o1777));
     root.build(&out(ROOT_IN))?;
     let outside = TreeSpec::default()
         .dir("attacker").dir("attacker/x").dir("attacker/x/c").dir("attacker/x/c/d").file("attacker/x/secret2").dir("attacker/x/b").dir("attacker/x/b/c").dir("attacker/x/b/c/d")
